@@ -111,10 +111,11 @@ type Node struct {
 	Cond       *Ex
 	Then, Else *Node
 	// leaf
-	Kind   string
-	Ret    []*Ex
-	Stores []string
-	Events []*Ex
+	Kind    string
+	Ret     []*Ex
+	Stores  []string
+	Events  []*Ex
+	StoreEx map[string]*Ex // the stored values as expressions, by store target
 }
 
 func (n *Node) String() string {
@@ -203,6 +204,14 @@ func (n *Node) Exprs(f func(*Ex)) {
 	}
 	for _, e := range n.Events {
 		e.walk(f)
+	}
+	keys := make([]string, 0, len(n.StoreEx))
+	for k := range n.StoreEx {
+		keys = append(keys, k)
+	}
+	sort.Strings(keys)
+	for _, k := range keys {
+		n.StoreEx[k].walk(f)
 	}
 }
 
@@ -299,6 +308,7 @@ type loopInfo struct {
 	depth    int       // scope depth (of the frame) at loop entry: assignments to shallower scopes escape the loop
 	frame    int       // frame index
 	assigned *[]string // outer variables assigned in the body, in order of first occurrence (shared by all paths)
+	outer    []string  // the same, determined syntactically before the body is executed
 	rangeX   *Ex
 	keyName  string
 }
@@ -486,8 +496,24 @@ func (n *Normaliser) leaf(st *state, kind string, vals []*Ex) *Node {
 	l := &Node{Kind: kind, Ret: vals, Events: st.events}
 	keys := append([]string{}, st.storeOrder...)
 	sort.Strings(keys)
+	l.StoreEx = map[string]*Ex{}
 	for _, k := range keys {
 		l.Stores = append(l.Stores, k+" := "+st.stores[k].String())
+		l.StoreEx[k] = st.stores[k]
+	}
+	return l
+}
+
+// loopLeaf: the end of one iteration; the values the iteration leaves in variables of the enclosing scopes are part of
+// the leaf (as stores out#i).
+func (n *Normaliser) loopLeaf(st *state, kind string, outer []string) *Node {
+	l := n.leaf(st, kind, nil)
+	for i, nm := range outer {
+		if v, ok := st.lookup(nm); ok {
+			k := "out#" + strconv.Itoa(i)
+			l.Stores = append(l.Stores, k+" := "+v.String())
+			l.StoreEx[k] = v
+		}
 	}
 	return l
 }
@@ -621,7 +647,7 @@ func (n *Normaliser) stmts(list []ast.Stmt, st *state, ctx *execCtx, k func(*sta
 		if s.Label != nil || (s.Tok != token.CONTINUE && s.Tok != token.BREAK) || len(ctx.loops) == 0 {
 			n.fail("branch statement %s", n.p.Src(s))
 		}
-		return n.leaf(st, strings.ToLower(s.Tok.String()), nil)
+		return n.loopLeaf(st, strings.ToLower(s.Tok.String()), ctx.loops[len(ctx.loops)-1].outer)
 	}
 	n.fail("statement %T", list[0])
 	return nil
@@ -1051,7 +1077,8 @@ func (n *Normaliser) loop(s ast.Stmt, st *state, ctx *execCtx, rest func(*state)
 	for i, nm := range outerAssigned {
 		body.assign(nm, &Ex{Op: "phi", S: ids + "." + strconv.Itoa(i)})
 	}
-	tree := n.stmts(stmts, body, lctx, func(st *state) *Node { return n.leaf(st, "fall", nil) })
+	li.outer = outerAssigned
+	tree := n.stmts(stmts, body, lctx, func(st *state) *Node { return n.loopLeaf(st, "fall", outerAssigned) })
 	st.events = append(st.events, &Ex{Op: "loop", A: []*Ex{header, {Op: "opaque", S: tree.String()}}, N: tree})
 	for i, nm := range outerAssigned {
 		st.assign(nm, &Ex{Op: "phi", S: ids + "." + strconv.Itoa(i) + "'"})
@@ -1253,13 +1280,20 @@ func (n *Normaliser) stringy(e *Ex) bool {
 }
 
 func (n *Normaliser) concat(parts ...*Ex) *Ex {
+	// an operand of a string concatenation that is itself `a + b` is a concatenation too
 	var flat []*Ex
-	for _, p := range parts {
-		if p.Op == "concat" {
-			flat = append(flat, p.A...)
-		} else {
-			flat = append(flat, p)
+	var add func(p *Ex)
+	add = func(p *Ex) {
+		if p.Op == "concat" || (p.Op == "bin" && p.S == "+") {
+			for _, a := range p.A {
+				add(a)
+			}
+			return
 		}
+		flat = append(flat, p)
+	}
+	for _, p := range parts {
+		add(p)
 	}
 	var out []*Ex
 	for _, p := range flat {
